@@ -29,7 +29,7 @@ RULE = ("Random grids of 2-12 daily/irregular timesteps of which ~85% carry an e
         "expanding. Non-trivial = fold strictly inside the grid with >= 2 valid starts or a refusal.")
 ASSUMPTIONS = ["the episode_length argument of reset() ('number of states') is not judged; the configured length is",
                "sampling_span cases only check membership, not reachability"]
-REQUIRED_CATS = ["timesteps-re-added-after-environment-built", "latent-only-timestep", "events-added-then-rebuilt", "steps_delay:1", "steps_delay:2", "one-off-length-then-configured"]
+REQUIRED_CATS = ["decision-refused-then-resubmitted", "timesteps-re-added-after-environment-built", "latent-only-timestep", "events-added-then-rebuilt", "steps_delay:1", "steps_delay:2", "one-off-length-then-configured"]
 REQUIRED = ["C15:decisions-exact", "C15:start-valid", "C15:visits-contiguous", "C15:every-start-reachable", "C15:refused-when-none-fits",
             "C15:whole-fold", "C15:walk-forward"]
 TECHNIQUE = "runtime monitoring: visited timesteps (observer clock per call) compared with the fold's event-bearing steps; seeded reachability sweep"
@@ -40,7 +40,7 @@ LEVEL_NOTE = ("Trusted: numpy's legacy global RNG is uniform. Mutation audit: sl
               "walk-forward step != test size are caught.")
 
 
-def visited_run(env, sink, fold, cap, grid=None):
+def visited_run(env, sink, fold, cap, grid=None, refuse=None):
     del sink.log[:]
     env.reset(fold)
     seq = []
@@ -62,6 +62,14 @@ def visited_run(env, sink, fold, cap, grid=None):
     while not done:
         if k > cap:
             return seq, k, True
+        if refuse is not None and k == refuse:
+            # a decision the environment refuses (out of bounds), caught by the caller, who then decides properly:
+            # the refused call is not a decision and does not move the episode
+            try:
+                env.step(np.array([9.]))
+            except ValueError:
+                pass
+            refuse = None
         o, r, done, info = env.step(np.array([0.]))
         k += 1
         seq.append(slot_of_last())
@@ -138,7 +146,10 @@ def case(ctx, i, tier):
                 except Exception:
                     pass
             try:
-                seq, k, over = visited_run(env, sink, fold, cap=len(grid) + 2, grid=grid)
+                refuse_k = rng.randint(0, nlen - 1) if (delay == 0 and rng.random() < 0.15) else None
+                if refuse_k is not None:
+                    ctx.cat("decision-refused-then-resubmitted")
+                seq, k, over = visited_run(env, sink, fold, cap=len(grid) + 2, grid=grid, refuse=refuse_k)
             except Exception as ex:
                 if valid:
                     ctx.violation("C15:accepted-when-fits", nlen=nlen, steps=len(steps), error=repr(ex)[:200])
